@@ -62,7 +62,7 @@ def subject(e):
     if k == 'entity':
         return '%s.EntitiesMap[%s]' % (e['table'], e['name'])
     if k == 'reventity':
-        return '%s.TextRevEntitiesMap[%d]' % (e['table'], e['ch'])
+        return '%s.%s[%d]' % (e['table'], e.get('map', 'TextRevEntitiesMap'), e['ch'])
     if k == 'colourname':
         return 'css.ShortenColorName[%s]' % e['name']
     if k == 'colourhex':
